@@ -1,6 +1,6 @@
 (* C08 — paths yield the SSZ-spec generalized index and address the right node.
    Property theorems only. *)
-Require Import RM.Base RM.Gindex RM.Types RM.Spec RM.ModelViews RM.ModelPaths RM.PathProofs.
+Require Import RM.Base RM.Gindex RM.Tree RM.Types RM.Spec RM.ModelViews RM.ModelPaths RM.PathProofs RM.ReprProofs RM.NodeProofs.
 Local Open Scope N_scope.
 
 (* one step: whenever a key is accepted by type navigation, the generalized index computed from
@@ -34,7 +34,40 @@ Example C08_nonvacuous :
   (exists e, navigate_type (TList (TUint 1) 5) (PInt 5) = Err e).
 Proof. repeat split. eexists; reflexivity. Qed.
 
+(* concatenating generalized indices concatenates their paths (bit level) *)
+Theorem C08_concat_paths : forall steps ps, Forall2 (fun g p => path_of_gindex g = Some p) steps ps ->
+  exists g, concat_gindices steps = Ok g /\ path_of_gindex g = Some (concat ps).
+Proof. exact concat_gindices_paths. Qed.
+
+(* one navigation step on a value: the node at the key's static generalized index represents the child *)
+Theorem C08_node_step : forall H src t v n k t' v', wf_ty t = true -> wf t v = true -> Repr H t v n ->
+  child_of t v k = Some (t', v') ->
+  exists g m, key_to_static_gindex t k = Ok g /\ navigate_type t k = Ok t' /\ getter_g src n g = Ok m /\ Repr H t' v' m.
+Proof. exact node_step. Qed.
+
+(* whole paths: for ANY representation of a value (constructed, decoded, mutated), the backing node at
+   Path.gindex() represents the addressed sub-value and therefore has its hash-tree-root *)
+Theorem C08_node : forall H src ks t v n t' v', wf_ty t = true -> wf t v = true -> Repr H t v n ->
+  child_path t v ks = Some (t', v') ->
+  exists g m, path_gindex t ks = Ok g /\ getter_g src n g = Ok m /\ Repr H t' v' m /\ root H m = htr H t' v'.
+Proof. exact node_path. Qed.
+
+(* the '__len__' / '__selector__' pseudo keys: index 3 holds the mix-in *)
+Theorem C08_mixin_node : forall H src t v n, Repr H t v n ->
+  match t, v with
+  | TList _ _, VSeq vs => exists m, getter_g src n 3 = Ok m /\ root H m = le_bytes 32 (lenN vs)
+  | TBitlist _, VBits bs => exists m, getter_g src n 3 = Ok m /\ root H m = le_bytes 32 (lenN bs)
+  | TByteList _, VBytes bs => exists m, getter_g src n 3 = Ok m /\ root H m = le_bytes 32 (lenN bs)
+  | TUnion _ _, VUnion sel _ => exists m, getter_g src n 3 = Ok m /\ root H m = le_bytes 32 (N.of_nat sel)
+  | _, _ => True
+  end.
+Proof. exact node_mixin. Qed.
+
 Print Assumptions C08_static_eq_spec.
+Print Assumptions C08_concat_paths.
+Print Assumptions C08_node_step.
+Print Assumptions C08_node.
+Print Assumptions C08_mixin_node.
 Print Assumptions C08_invalid_key_rejected.
 Print Assumptions C08_path.
 Print Assumptions C08_to_gindex.
